@@ -368,6 +368,7 @@ func reportViolation(spec *RunSpec, v *Violation, st *Stats, replayDir string, d
 	final := spec
 	fv := v
 	detail := ""
+	verified := !doMin // without minimisation nothing was tried
 	fresh := func(c *RunSpec) bool {
 		cl, d := subprocessResult(c)
 		if cl == class {
@@ -396,6 +397,7 @@ func reportViolation(spec *RunSpec, v *Violation, st *Stats, replayDir string, d
 			min = minimise(spec, class, fresh, 200, 120*time.Second)
 			ok = fresh(min)
 		}
+		verified = ok
 		if ok {
 			final = min
 			if class == "race" || class == "deadlock" || class == "hang" {
@@ -405,7 +407,9 @@ func reportViolation(spec *RunSpec, v *Violation, st *Stats, replayDir string, d
 			} else {
 				fv = &Violation{Class: class, Client: -1, Op: -1, Detail: detail}
 			}
-		} else if curProc != nil && !fresh(spec) {
+		} else if curProc == nil || fresh(spec) {
+			verified = curProc != nil // the un-minimised run reproduces in a fresh process
+		} else {
 			// the run alone does not reproduce in a fresh process: it needs what this process
 			// executed before it. Record the shortest suffix of the worker's run sequence that
 			// does reproduce there.
@@ -427,6 +431,7 @@ func reportViolation(spec *RunSpec, v *Violation, st *Stats, replayDir string, d
 			}
 			if found {
 				final = h
+				verified = true
 			} else {
 				spec.Note = "observed in the worker process but reproduced neither alone nor with the worker's run sequence in a fresh process"
 			}
@@ -444,7 +449,7 @@ func reportViolation(spec *RunSpec, v *Violation, st *Stats, replayDir string, d
 	if final.ProcHist != nil && final.ProcHist.Needed {
 		sum += fmt.Sprintf(" | needs process history: runs %d..%d of shard %d/%d re-executed in a fresh process", final.ProcHist.FromRun, final.ProcHist.UntilRun, final.ProcHist.Shard, final.ProcHist.Of)
 	}
-	st.Violations = append(st.Violations, VioReport{Property: spec.Property, Class: class, Replay: p, Detail: sum})
+	st.Violations = append(st.Violations, VioReport{Property: spec.Property, Class: class, Replay: p, Detail: sum, Unverified: !verified})
 }
 
 func vioSummary(spec *RunSpec, v *Violation) string {
